@@ -252,7 +252,9 @@ CHECKS = {
             "preconditioned inner product, the zero-column threshold does not depend on the right-hand side, and the "
             "tridiagonal recording stops only when the off-diagonal entry of EVERY column vanished (M); the break / reached flag lie on a branch "
             "that guarantees residual norm < tolerance, not merely on a branch of that test (X); the tridiagonal matrix that is returned is "
-            "the recorded buffer, only sliced / permuted / copied after the iteration, never re-computed or written (L). The tests use one "
+            "the recorded buffer, only sliced / permuted / copied after the iteration, never re-computed or written (L); the dimension of the "
+            "tridiagonal buffer is capped by the row count of the system on every path - three-valued min / max / conditional "
+            "derivation, reported only when definitely uncapped (N). The tests use one "
             "well-conditioned system with a preconditioner-free path, so the preconditioned sibling, zero columns and "
             "zero curvature are not exercised. NOT decided (numerical): monotone A-norm error, Chebyshev bound, that "
             "t_mat is the Lanczos matrix, preconditioner independence of the answer.",
